@@ -100,6 +100,9 @@ def ops_alphabet(full=True, nocase=False):
     O.append(('rmsec', b'mt=b'))
     O.append(('rmsec', b'mt=zz'))
     O.append(('rmsec', b'm=0'))
+    O.append(('rmsec', b'm=zz'))                   # not an index: nothing is removed
+    O.append(('rmsec', b'm=0x'))
+    O.append(('set', 'int', b'm=zz|x', 7, None))
     # nested targets
     O.append(('set', 'int', b'sec|x', 7, None))
     O.append(('set', 'int', b'mt=a|x', 7, None))
@@ -129,6 +132,8 @@ def ops_alphabet(full=True, nocase=False):
     O.append(('setfrom', b'sd', 2, b'sd', 0))
     O.append(('setfrom', b'sl', 0, b'sl', 0))
     O.append(('setfrom', b's', 0, b'sd', 0))
+    O.append(('setoptfrom', b's', 0))              # set-from-text with the option's own string
+    O.append(('setoptfrom', b'sd', 1))
     O.append(('setlistfrom', b'sd', [1, 0]))       # the list reordered / cut down to its own elements
     O.append(('setlistfrom', b'sd', [1]))
     O.append(('setlistfrom', b'sl', [0, 0]))
